@@ -88,6 +88,11 @@ func setConsts(vm *otto.Otto, consts map[string]float64) error {
 // ---- family cases ------------------------------------------------------------------
 
 type caseT struct {
+	Cont  string `json:"cont"`
+	K     string `json:"k"`
+	Where string `json:"where"`
+	Sel   string `json:"sel"`
+	D     any    `json:"d"`
 	Fam   string `json:"fam"`
 	Ty    any    `json:"ty"`
 	Sig   M      `json:"sig"`
@@ -216,6 +221,105 @@ func runCase(vm *otto.Otto, l *line) (any, string, error) {
 			return M{"thr": "", "called": 0}, call, nil
 		}
 		return M{"thr": "", "g": M{"k": "int", "z": bridge.ZOfInt64(int64(*got))}}, call, nil
+	case "elemw":
+		// one element write into a bridged []K, *[2]K or map[string]K whose element is 1
+		et, err := bridge.ElemType(c.K)
+		if err != nil {
+			return nil, src, err
+		}
+		one := reflect.New(et).Elem()
+		if one.CanInt() {
+			one.SetInt(1)
+		} else {
+			one.SetUint(1)
+		}
+		var elem func() reflect.Value
+		target := "c[0]"
+		switch c.Cont {
+		case "slice":
+			sl := reflect.MakeSlice(reflect.SliceOf(et), 2, 2)
+			sl.Index(0).Set(one)
+			elem = func() reflect.Value { return sl.Index(0) }
+			err = vm.Set("c", sl.Interface())
+		case "array":
+			ar := reflect.New(reflect.ArrayOf(2, et))
+			ar.Elem().Index(0).Set(one)
+			elem = func() reflect.Value { return ar.Elem().Index(0) }
+			err = vm.Set("c", ar.Interface())
+		case "map":
+			mp := reflect.MakeMap(reflect.MapOf(reflect.TypeOf(""), et))
+			mp.SetMapIndex(reflect.ValueOf("a"), one)
+			elem = func() reflect.Value { return mp.MapIndex(reflect.ValueOf("a")) }
+			target = `c["a"]`
+			err = vm.Set("c", mp.Interface())
+		default:
+			err = fmt.Errorf("unknown container %q", c.Cont)
+		}
+		if err != nil {
+			return nil, src, err
+		}
+		stmt := target + " = " + src
+		thr := runStmt(vm, wrap(stmt))
+		obs := M{"thr": thr}
+		ev := elem()
+		if !ev.IsValid() {
+			obs["elem"] = M{"k": "missing"}
+		} else {
+			obs["elem"] = bridge.ProjectAs(ev, et)
+		}
+		var jsv any
+		r, e := vm.Run("JSON.stringify(OBS(" + target + "))")
+		if e != nil || json.Unmarshal([]byte(r.String()), &jsv) != nil {
+			jsv = M{"unobservable": fmt.Sprint(e)}
+		}
+		obs["js"] = jsv
+		return obs, stmt, nil
+	case "pfield":
+		// x.<sel> handed to a Go function taking a pointer: identity and visibility of the callee's write
+		d, err := bridge.BuildDoc(c.D)
+		if err != nil {
+			return nil, src, err
+		}
+		X, err := bridge.PlaceDoc(vm, c.Where, d)
+		if err != nil {
+			return nil, src, err
+		}
+		P, err := bridge.DocPath(X, c.Sel)
+		if err != nil {
+			return nil, src, err
+		}
+		same, called := false, 0
+		var ferr error
+		if c.Sel == "Arr" {
+			ferr = vm.Set("F", func(p *[2]int8) { called++; same = p == &d.Arr; p[0], p[1] = 9, 9 })
+		} else {
+			var orig *bridge.Inner
+			switch c.Sel {
+			case "In":
+				orig = &d.In
+			case "PIn":
+				orig = d.PIn
+			case "SIn0":
+				orig = &d.SIn[0]
+			case "AIn0":
+				orig = &d.AIn[0]
+			}
+			ferr = vm.Set("F", func(p *bridge.Inner) { called++; same = p == orig; p.N += 10 })
+		}
+		if ferr != nil {
+			return nil, src, ferr
+		}
+		stmt := "F(" + P + ")"
+		thr := runStmt(vm, wrap(stmt))
+		if thr == "" && called != 1 {
+			return M{"thr": "", "called": called}, stmt, nil
+		}
+		var view any
+		r, e := vm.Run("JSON.stringify(OBS(x))")
+		if e != nil || json.Unmarshal([]byte(r.String()), &view) != nil {
+			view = M{"unobservable": fmt.Sprint(e)}
+		}
+		return M{"thr": thr, "same": same, "js": view, "go": bridge.DocForm(d)}, stmt, nil
 	case "back":
 		st, err := bridge.StructOfForm(c.Src)
 		if err != nil {
